@@ -145,13 +145,18 @@ class BuildError(Exception):
     pass
 
 
+_OBJ_LOCKS = {}
+_OBJ_LOCKS_GUARD = threading.Lock()
+
+
 class Builder:
     def __init__(self, flavour, extra_cflags=()):
         assert flavour in FLAVOURS
         self.flavour = flavour
         self.extra = list(extra_cflags)
         self.dir = os.path.join(CACHE, flavour + ("" if not extra_cflags else
-                                                   "-" + _sha(*extra_cflags)[:8]))
+                                                   "-" + _sha(*extra_cflags)[:8])
+                                + ("" if REPO == "/repo" else "-repo" + _sha(REPO)[:8]))  # one cache per source tree
         os.makedirs(os.path.join(self.dir, "obj"), exist_ok=True)
         os.makedirs(os.path.join(self.dir, "bin"), exist_ok=True)
 
@@ -185,15 +190,18 @@ class Builder:
             tag += "." + _sha(*defines)[:8]
         out = os.path.join(self.dir, "obj", tag + ".o")
         keyf = out + ".key"
-        if os.path.exists(out) and os.path.exists(keyf) and open(keyf).read() == key:
+        with _OBJ_LOCKS_GUARD:
+            lk = _OBJ_LOCKS.setdefault(out, threading.Lock())
+        with lk:  # several targets built in parallel share objects: compile each once
+            if os.path.exists(out) and os.path.exists(keyf) and open(keyf).read() == key:
+                return out
+            uniq = ".tmp%d.%d" % (os.getpid(), threading.get_ident())
+            _run(cmd + ["-c", src, "-o", out + uniq])
+            os.replace(out + uniq, out)
+            with open(keyf + uniq, "w") as fh:
+                fh.write(key)
+            os.replace(keyf + uniq, keyf)
             return out
-        tmp = out + ".tmp%d.%d" % (os.getpid(), threading.get_ident())
-        _run(cmd + ["-c", src, "-o", tmp])
-        os.replace(tmp, out)
-        with open(keyf + ".tmp%d" % os.getpid(), "w") as fh:
-            fh.write(key)
-        os.replace(keyf + ".tmp%d" % os.getpid(), keyf)
-        return out
 
     def objs(self, paths, defines=()):
         with ThreadPoolExecutor(max_workers=min(16, max(1, len(paths)))) as ex:
@@ -211,15 +219,18 @@ class Builder:
             parts.append(open(kf).read() if os.path.exists(kf) else str(os.path.getmtime(o)))
         key = _sha(*parts)
         keyf = out + ".key"
-        if os.path.exists(out) and os.path.exists(keyf) and open(keyf).read() == key:
+        with _OBJ_LOCKS_GUARD:
+            lk = _OBJ_LOCKS.setdefault(out, threading.Lock())
+        with lk:
+            if os.path.exists(out) and os.path.exists(keyf) and open(keyf).read() == key:
+                return out
+            uniq = ".tmp%d.%d" % (os.getpid(), threading.get_ident())
+            _run(cmd + [out + uniq])
+            os.replace(out + uniq, out)
+            with open(keyf + uniq, "w") as fh:
+                fh.write(key)
+            os.replace(keyf + uniq, keyf)
             return out
-        tmp = out + ".tmp%d" % os.getpid()
-        _run(cmd + [tmp])
-        os.replace(tmp, out)
-        with open(keyf + ".tmp%d" % os.getpid(), "w") as fh:
-            fh.write(key)
-        os.replace(keyf + ".tmp%d" % os.getpid(), keyf)
-        return out
 
     def exe(self, name, objs, ldflags=(), subdir=None):
         d = os.path.join(self.dir, "bin", subdir) if subdir else os.path.join(self.dir, "bin")
@@ -313,7 +324,7 @@ def build_rt(flavour):
     d = os.path.dirname(exe)
     tgt = os.path.join(d, "libacquire-driver-common.so")
     if not os.path.exists(tgt) or os.path.getmtime(tgt) < os.path.getmtime(common) or os.path.getsize(tgt) != os.path.getsize(common):
-        tmp = tgt + ".tmp%d" % os.getpid()
+        tmp = tgt + ".tmp%d.%d" % (os.getpid(), threading.get_ident())
         shutil.copy2(common, tmp)
         os.replace(tmp, tgt)
     b.shared("libacquire-driver-hdcam.so", b.objs([harness("rt_mockdrv.c")]), subdir="rt")
